@@ -894,6 +894,35 @@ def _f110d(vio):
         vio.get("kind") in ("value-differs", "compiled-code-refused", "outcome-differs")
 
 
+@mechanism("F113-from_arrow-bitmask-too-short")
+def _f113(vio):
+    """from_arrow builds a BitMaskedArray from an Arrow validity bitmap that is shorter than ceil(length / 8) bytes
+    (sliced / offset struct children)"""
+    return _c16_msg(vio, "BitMaskedArray mask must not be shorter than its ceil(length")
+
+
+@mechanism("F114-rpad-clip-below-bitmasked")
+def _f114(vio):
+    """rpad_and_clip at an axis below a BitMaskedArray (reached through records with a negative axis) returns an
+    invalid layout for some encodings"""
+    det = vio.get("detail") or {}
+    op = _op_of(vio)
+    if vio.get("kind") != "value-differs" or op.get("op") != "rpad" or not op.get("clip"):
+        return False
+    unread = any("<unreadable" in str((det.get(k) or {}).get("value")) for k in ("A", "B", "C"))
+    return unread and _has_class(vio, ("BitMaskedArray",))
+
+
+@mechanism("F115-merge-strings-with-uint8-lists")
+def _f115(vio):
+    """mergemany of a list of strings with lists of uint8/bool numbers: the characters are merged as numbers or the
+    merge is refused ('dtype not in {boolean, uint8}') depending on the encoding of the operands"""
+    det = vio.get("detail") or {}
+    if vio.get("kind") != "outcome-kind-differs" or _op_of(vio).get("op") != "mergemany":
+        return False
+    return any("dtype not in {boolean, uint8}" in str((det.get(k) or {}).get("msg")) for k in ("A", "B", "C"))
+
+
 @mechanism("F10-reduce-nonlocal")
 def _f10(vio):
     rep = _report(vio)
